@@ -224,16 +224,17 @@ def branch():
 
 def othersheet():
     """read_and_parse_dict with formulas on a sheet that is not the default
-    one, an unqualified range with a hole (A2 is not a cell of the model) and
-    a second formula reading the hole directly.  What the dict reader makes
-    of the unqualified range is not judged here (C03 refuses it); only that
-    evaluation does not depend on order, repetition or evaluator and does not
-    add cells."""
-    cells = {'Data!A1': 1, 'Data!A3': 3, 'Data!B1': '=SUM(A1:A3)',
-             'Data!B2': '=A2+1', 'Data!B3': '=B1+B2'}
-    spec = ModelSpec('othersheet', cells, ['Data!A1'], [0, 5], {})
-    spec.differential = True
-    return spec
+    one: an unqualified range (with a hole: A2 is not a cell of the model)
+    means the formula's own sheet, a second formula reads the hole directly,
+    and the default sheet holds other values at the same coordinates."""
+    A1, A3, B1, B2, B3 = ('Data!' + x for x in ('A1', 'A3', 'B1', 'B2', 'B3'))
+    cells = {A1: 1, A3: 3, B1: '=SUM(A1:A3)', B2: '=A2+1', B3: '=B1+B2',
+             S + 'A1': 100, S + 'A2': 200, S + 'A3': 300}
+    return ModelSpec(
+        'othersheet', cells, [A1], [0, 5],
+        {B1: lambda g: g(A1) + g(A3), B2: lambda g: 1,
+         B3: lambda g: g(B1) + g(B2)},
+        eval_cells=[A1, A3, B1, B2, B3])
 
 
 def guarded():
@@ -334,8 +335,8 @@ def lookup():
 
 
 ALL = [chain, diamond, sumrange, formularange, crosssheet, textmodel, named,
-       branch, lookup, errrange, typed, guarded, named_extracted]
-ALL_C05 = ALL + [twodim, longrange, othersheet, criteria]
+       branch, lookup, errrange, typed, guarded, named_extracted, othersheet]
+ALL_C05 = ALL + [twodim, longrange, criteria]
 
 
 def by_name(name):
